@@ -18,9 +18,11 @@ RULE = (
     "The finite program space of the quantifier is enumerated completely in every tier: first step "
     "{raise before yield, no yield, yield} x handler around the yield {none, finally, swallow, re-raise, raise "
     "new, raise new from None, raise same type, return, yield again, raise StopAsyncIteration, raise "
-    "StopIteration, raise RuntimeError} x afterwards {stop, yield again, raise} x block outcome {normal, "
-    "Exception, BaseException, StopIteration, StopAsyncIteration, RuntimeError, GeneratorExit, "
-    "KeyboardInterrupt} = 864 programs, each with and without suspensions inside the generator (1728 runs). "
+    "StopIteration, raise RuntimeError, raise RuntimeError from the received exception, raise new from the "
+    "received exception} x afterwards {stop, yield again, raise} x block outcome {normal, Exception, "
+    "BaseException, StopIteration, StopAsyncIteration, RuntimeError, GeneratorExit, KeyboardInterrupt} = 1008 "
+    "programs (the quantifier's 864 plus two explicit-cause handlers), each with and without suspensions "
+    "inside the generator (2016 runs). "
     "Oracle: contextlib.asynccontextmanager around the same generator function - same bound value, same "
     "generator event log (started / resumed / thrown type; cleanup GeneratorExit ignored), same outcome class: "
     "the block's own object propagates / another exception (type, which planned object) / suppressed / "
@@ -35,12 +37,14 @@ ASSUMPTIONS = [
     "exceptions are compared by role (the block's object / a planned object of the generator / protocol error type), not by message",
 ]
 
-EXHAUSTIVE_SCOPE = ("table-", "the complete 864-program table of the quantifier (x 2: with/without suspensions inside "
-                    "the generator) is enumerated by the table-* shards; variations-* shards are sampled extras")
+EXHAUSTIVE_SCOPE = ("table-", "the complete program table of the quantifier (864 programs, plus 144 with explicit-cause "
+                    "handlers; x 2: with/without suspensions inside the generator) is enumerated by the table-* "
+                    "shards; variations-* shards are sampled extras")
 
 FIRST = ["raise-before-yield", "no-yield", "yield"]
 HANDLERS = ["none", "finally", "swallow", "re-raise", "raise-new", "raise-new-from-none", "raise-same-type",
-            "return", "yield-again", "raise-StopAsyncIteration", "raise-StopIteration", "raise-RuntimeError"]
+            "return", "yield-again", "raise-StopAsyncIteration", "raise-StopIteration", "raise-RuntimeError",
+            "raise-RuntimeError-from-exc", "raise-new-from-exc"]
 AFTER = ["stop", "yield-again", "raise"]
 BLOCK = ["normal", "Exception", "BaseException", "StopIteration", "StopAsyncIteration", "RuntimeError",
          "GeneratorExit", "KeyboardInterrupt"]
@@ -116,8 +120,10 @@ def make_program(case, ctx, log):
                     raise StopIteration("handler")
                 elif handler == "raise-RuntimeError":
                     raise RuntimeError("handler")
-                elif handler == "raise-cause":
+                elif handler in ("raise-cause", "raise-new-from-exc"):
                     raise New("handler") from exc
+                elif handler == "raise-RuntimeError-from-exc":
+                    raise RuntimeError("handler") from exc
         await pause("after")
         await tail()
         if after == "yield-again":
